@@ -83,6 +83,7 @@ OPTIONS_AFFECTING_CACHE: Final = (
         "install_types",
         # These change which diagnostics are produced, or are already applied to the
         # rendered diagnostics that are stored in the cache and replayed on a warm run.
+        "hide_error_codes",  # decides whether the show_error_code_links notes are generated
         "many_errors_threshold",
         "reveal_verbose_types",
         "semantic_analysis_only",
